@@ -22,7 +22,23 @@ def zonal_funcs(prog, pubname):
     return m, pub, fs
 
 
+def _view(prog, f):
+    """the function with its small private helpers inlined (rules read wrappers as syntax trees)"""
+    from .inline import inline_view
+    return inline_view(prog, f) if f is not None else None
+
+
 # ------------------------------------------------------------------------------------------- Z1 cursors
+class _Store:
+    """one name <- value inside a statement (a plain assignment, or one component of a tuple assignment)"""
+    def __init__(self, stmt, name, value):
+        self.stmt, self.name, self.value = stmt, name, value
+        self.lineno, self.col_offset = stmt.lineno, stmt.col_offset
+
+    def text(self):
+        return '%s = %s' % (self.name, norm(self.value))
+
+
 def loop_cursors(f):
     """(loop, cursor name, stores) for loop-carried plain variables of the for-loops of f"""
     out = []
@@ -33,7 +49,12 @@ def loop_cursors(f):
         assigned = {}
         for n in body_nodes:
             if isinstance(n, ast.Assign) and len(n.targets) == 1 and isinstance(n.targets[0], ast.Name):
-                assigned.setdefault(n.targets[0].id, []).append(n)
+                assigned.setdefault(n.targets[0].id, []).append(_Store(n, n.targets[0].id, n.value))
+            elif isinstance(n, ast.Assign) and len(n.targets) == 1 and isinstance(n.targets[0], ast.Tuple) and \
+                    isinstance(n.value, ast.Tuple) and len(n.value.elts) == len(n.targets[0].elts):
+                for t, v in zip(n.targets[0].elts, n.value.elts):
+                    if isinstance(t, ast.Name):
+                        assigned.setdefault(t.id, []).append(_Store(n, t.id, v))
         for name, stores in assigned.items():
             # initialised before the loop in the same function
             inits = [v for v in f.local_assigns().get(name, []) if isinstance(v, ast.AST) and
@@ -45,8 +66,9 @@ def loop_cursors(f):
             first_store = min((s.lineno, s.col_offset) for s in stores)
             reads = [(n.lineno, n.col_offset) for n in body_nodes
                      if isinstance(n, ast.Name) and n.id == name and isinstance(n.ctx, ast.Load)]
-            # reads on the right-hand side of the first store itself count as "before"
-            rhs_reads = [1 for s in stores for n in ast.walk(s.value) if isinstance(n, ast.Name) and n.id == name]
+            # reads on the right-hand side of the first store itself count as "before" (all components of a tuple
+            # assignment are evaluated before any is stored)
+            rhs_reads = [1 for s in stores for n in ast.walk(s.stmt.value) if isinstance(n, ast.Name) and n.id == name]
             if not reads or (min(reads) > first_store and not rhs_reads):
                 continue
             if all(isinstance(s.value, ast.Constant) for s in stores):
@@ -60,17 +82,17 @@ def check_cursors(rep, fs, prop, entry_of):
     for f in fs:
         for lp, name, stores in loop_cursors(f):
             n += 1
-            top = [s for s in stores if s in lp.body]
+            top = [s for s in stores if s.stmt in lp.body]
             ok = len(top) >= 1
             # no `continue` before the top-level store
             if ok:
-                idx = lp.body.index(top[-1])
+                idx = lp.body.index(top[-1].stmt)
                 for s in lp.body[:idx]:
                     for x in ast.walk(s):
                         if isinstance(x, ast.Continue):
                             ok = False
             rep.add('Z1', f, entry_of(f), 'cursor `%s` in `for %s in %s`: %s' % (
-                name, norm(lp.target), norm(lp.iter)[:40], '; '.join(norm(s) for s in stores)), stores[0].lineno, ok,
+                name, norm(lp.target), norm(lp.iter)[:40], '; '.join(s.text() for s in stores)), stores[0].lineno, ok,
                 'a running offset that delimits consecutive segments must be advanced on EVERY iteration (at the top '
                 'level of the loop body): advancing it only when the item is selected makes the next selected '
                 'segment start too early')
@@ -124,6 +146,16 @@ class OrderEnv:
                 t = s.targets[0]
                 if isinstance(t, ast.Name):
                     self.env[t.id] = self.order_of(s.value)
+                    # a table created with its 'zone' column: {"zone": ids, ...} / dict(zone=ids)
+                    v = s.value
+                    if isinstance(v, ast.Dict):
+                        for k, vv in zip(v.keys, v.values):
+                            if k is not None and const(k) == 'zone':
+                                sinks.append((s, self.order_of(vv)))
+                    elif isinstance(v, ast.Call) and short(v) == 'dict':
+                        for k in v.keywords:
+                            if k.arg == 'zone':
+                                sinks.append((s, self.order_of(k.value)))
                 elif isinstance(t, ast.Subscript) and const(t.slice) == 'zone':
                     sinks.append((s, self.order_of(s.value)))
             elif isinstance(s, ast.If):
@@ -146,6 +178,12 @@ def iterated_param(t):
     """for helpers of the shape `for i in P: if i in Q: out.append(i); return out` -> 'P'"""
     loops = [n for n in t.node.body if isinstance(n, ast.For)]
     rets = [n for n in t.node.body if isinstance(n, ast.Return)]
+    # the same filter as a comprehension: `return [i for i in P if i in Q]`
+    if not loops and len(rets) == 1 and isinstance(rets[0].value, ast.ListComp) and len(rets[0].value.generators) == 1:
+        g = rets[0].value.generators[0]
+        if isinstance(g.iter, ast.Name) and g.iter.id in t.params and isinstance(g.target, ast.Name) and \
+                isinstance(rets[0].value.elt, ast.Name) and rets[0].value.elt.id == g.target.id:
+            return g.iter.id
     if len(loops) == 1 and len(rets) == 1 and isinstance(loops[0].iter, ast.Name) and loops[0].iter.id in t.params \
             and isinstance(rets[0].value, ast.Name) and isinstance(loops[0].target, ast.Name):
         out = rets[0].value.id
@@ -319,6 +357,7 @@ def check_validity(prog, rep, fs, entry_of):
     for f in fs:
         if f.is_lambda:
             continue
+        f = _view(prog, f)        # `v = _drop_invalid(v, nodata)` reads as the mask it applies
         pm = parent_map(f.node)
         sites = []
         for c in calls(f.node):
@@ -749,22 +788,36 @@ def check_global_ids(prog, rep, m, entry):
 
 
 def check_crosstab_merge(prog, rep, m, entry):
-    f = m.funcs.get('_crosstab_df_dask')
+    f = _view(prog, m.funcs.get('_crosstab_df_dask'))
     if f is None:
         raise AnalysisIncomplete('_crosstab_df_dask not found')
     n = 0
     # key-wise sum over all keys of every further block
     ok = False
+    B = f.params[0]
+    first = any(isinstance(x, ast.Assign) and norm(x.value).replace(' ', '') == '%s[0]' % B for x in f.own_nodes())
     for lp in [x for x in f.own_nodes() if isinstance(x, ast.For)]:
+        it = norm(lp.iter).replace(' ', '')
+        if it == 'range(1,len(%s))' % B and isinstance(lp.target, ast.Name):
+            blk = '%s[%s]' % (B, lp.target.id)
+        elif it == '%s[1:]' % B and isinstance(lp.target, ast.Name):
+            blk = lp.target.id
+        else:
+            continue
         for inner in [y for y in lp.body if isinstance(y, ast.For)]:
-            if isinstance(inner.target, ast.Name) and len(inner.body) == 1 and isinstance(inner.body[0], ast.AugAssign) \
-                    and isinstance(inner.body[0].op, ast.Add):
+            if len(inner.body) != 1 or not isinstance(inner.body[0], ast.AugAssign) or not isinstance(inner.body[0].op, ast.Add):
+                continue
+            a = inner.body[0]
+            iit = norm(inner.iter).replace(' ', '')
+            if isinstance(inner.target, ast.Name) and iit in (blk, blk + '.keys()'):
                 k = inner.target.id
-                a = inner.body[0]
-                iv = lp.target.id if isinstance(lp.target, ast.Name) else '?'
-                all_keys = norm(inner.iter).replace('.keys()', '') in ('%s[%s]' % (f.params[0], iv), 'result')
-                ok = norm(a.target).endswith('[%s]' % k) and norm(a.value).endswith('[%s]' % k) and all_keys and \
-                    norm(lp.iter).replace(' ', '') == 'range(1,len(%s))' % f.params[0]
+                okv = norm(a.value).replace(' ', '') == '%s[%s]' % (blk, k)
+            elif isinstance(inner.target, ast.Tuple) and len(inner.target.elts) == 2 and iit == blk + '.items()':
+                k = norm(inner.target.elts[0])
+                okv = norm(a.value) == norm(inner.target.elts[1])
+            else:
+                continue
+            ok = first and okv and norm(a.target).replace(' ', '').endswith('[%s]' % k)
     n += 1
     rep.add('Z8', f, entry, 'block merge loop', f.node.lineno, ok,
             'per-block dicts must be summed key-wise over ALL keys of ALL further blocks (range(1, len(blocks)))')
@@ -775,7 +828,7 @@ def check_crosstab_merge(prog, rep, m, entry):
     n += 1
     rep.add('Z8', f, entry, 'percentage after merge', f.node.lineno, bool(ok),
             'percentages must be computed once, after all blocks are merged')
-    blk = m.funcs.get('_single_chunk_crosstab')
+    blk = _view(prog, m.funcs.get('_single_chunk_crosstab'))
     if blk is not None:
         bad = [x for x in blk.own_nodes() if isinstance(x, ast.BinOp) and isinstance(x.op, ast.Div)]
         n += 1
@@ -783,15 +836,22 @@ def check_crosstab_merge(prog, rep, m, entry):
                 'a per-block percentage cannot be merged by addition')
     # percentage formula (both backends): cat / TOTAL_COUNT * 100, zeros -> NaN first
     for fn in ('_crosstab_numpy', '_crosstab_df_dask'):
-        g = m.funcs.get(fn)
+        g = _view(prog, m.funcs.get(fn))
         if g is None:
             continue
         found = False
+        # the total may be read through a local alias of <table>[TOTAL_COUNT]
+        alias = {}
         for x in g.own_nodes():
-            if isinstance(x, ast.Assign) and isinstance(x.value, ast.BinOp):
-                t = norm(x.value).replace(' ', '')
-                if t.endswith('[cat]/' + t.split('[cat]/')[-1]) and t.endswith('[TOTAL_COUNT]*100') and \
-                        norm(x.targets[0]).endswith('[cat]'):
+            if isinstance(x, ast.Assign) and isinstance(x.targets[0], ast.Name) and norm(x.value).replace(' ', '').endswith('[TOTAL_COUNT]'):
+                alias[x.targets[0].id] = norm(x.value).replace(' ', '')
+        for x in g.own_nodes():
+            if isinstance(x, ast.Assign) and isinstance(x.value, ast.BinOp) and isinstance(x.value.op, ast.Mult) and \
+                    norm(x.value.right) == '100' and isinstance(x.value.left, ast.BinOp) and isinstance(x.value.left.op, ast.Div):
+                num, den = norm(x.value.left.left).replace(' ', ''), norm(x.value.left.right).replace(' ', '')
+                den = alias.get(den, den)
+                tgt = norm(x.targets[0]).replace(' ', '')
+                if num == tgt and tgt.endswith('[cat]') and den == tgt[:-len('[cat]')] + '[TOTAL_COUNT]':
                     found = True
         n += 1
         rep.add('Z8-pct', g, entry, '%s: percentage = count / total * 100' % fn, g.node.lineno, found,
@@ -867,7 +927,7 @@ def check_alignment(prog, rep, m, pubname, entry):
 def check_crosstab_keys(prog, rep, m, entry):
     """C04: counts keyed by their own category; 3-D aggregate from the default table; total before selection"""
     n = 0
-    f = m.funcs.get('_single_zone_crosstab_2d')
+    f = _view(prog, m.funcs.get('_single_zone_crosstab_2d'))
     if f is None:
         raise AnalysisIncomplete('_single_zone_crosstab_2d not found')
     # total_count appended before category selection and from the filtered values
@@ -876,29 +936,47 @@ def check_crosstab_keys(prog, rep, m, entry):
     n += 1
     rep.add('X-total', f, entry, norm(tot[0]) if tot else 'total_count', f.node.lineno, ok,
             'the percentage base is the number of valid cells of the zone, counted before any category selection')
+    # the break vector is the stride routine applied to the sorted valid values and ALL categories
+    bnames = [t.id for s_ in f.own_nodes() if isinstance(s_, ast.Assign) and isinstance(s_.value, ast.Call) and
+              short(s_.value) == '_strides' and len(s_.value.args) == 2 and norm(s_.value.args[1]) == 'unique_cats'
+              for t in s_.targets if isinstance(t, ast.Name)]
     for lp in [x for x in f.node.body if isinstance(x, ast.For)]:
-        okl = isinstance(lp.iter, ast.Call) and norm(lp.iter.func) == 'enumerate' and norm(lp.iter.args[0]) == 'unique_cats'
+        # category and its break are paired by position: enumerate(unique_cats) + breaks[j], or zip(unique_cats, breaks)
+        tv = brk = None
+        it = lp.iter
+        if isinstance(it, ast.Call) and norm(it.func) == 'enumerate' and len(it.args) == 1 and norm(it.args[0]) == 'unique_cats' \
+                and isinstance(lp.target, ast.Tuple) and len(lp.target.elts) == 2:
+            jv, tv = norm(lp.target.elts[0]), norm(lp.target.elts[1])
+            brk = {'%s[%s]' % (b_, jv) for b_ in bnames}
+        elif isinstance(it, ast.Call) and norm(it.func) == 'zip' and len(it.args) == 2 and isinstance(lp.target, ast.Tuple) \
+                and len(lp.target.elts) == 2 and sorted(norm(a) for a in it.args) == sorted(['unique_cats'] + bnames[:1]):
+            pos = [norm(a) for a in it.args].index('unique_cats')
+            tv = norm(lp.target.elts[pos])
+            brk = {norm(lp.target.elts[1 - pos])}
+        okl = tv is not None and bool(brk)
         n += 1
         rep.add('X-key', f, entry, 'for %s in %s' % (norm(lp.target), norm(lp.iter)), lp.lineno, okl,
                 'the category breaks are computed for unique_cats: break j belongs to unique_cats[j], so the loop '
-                'must enumerate all categories')
-        tv = lp.target.elts[-1].id if isinstance(lp.target, ast.Tuple) else None
-        jv = lp.target.elts[0].id if isinstance(lp.target, ast.Tuple) else None
+                'must pair ALL categories with the breaks by position (enumerate + breaks[j], or zip)')
+        if not okl:
+            continue
+        env = {}
+        for s_ in ast.walk(lp):
+            if isinstance(s_, ast.Assign) and isinstance(s_.targets[0], ast.Name) and s_.targets[0].id not in ('cat_start',):
+                env[s_.targets[0].id] = s_.value
         for c in calls(lp):
             if short(c) == 'append':
                 key = norm(c.func.value)
                 okk = key.endswith('[%s]' % tv)
+                v = c.args[0] if c.args else None
+                if isinstance(v, ast.Name) and v.id in env:
+                    v = env[v.id]
+                okc = isinstance(v, ast.BinOp) and isinstance(v.op, ast.Sub) and norm(v.left) in brk and isinstance(v.right, ast.Name)
                 n += 1
-                rep.add('X-key', f, entry, norm(c), c.lineno, okk, 'a count must be stored under its own category')
-        # count = breaks[j] - cat_start
-        for s in ast.walk(lp):
-            if isinstance(s, ast.Assign) and norm(s.targets[0]) == 'count':
-                okc = isinstance(s.value, ast.BinOp) and isinstance(s.value.op, ast.Sub) and \
-                    norm(s.value.left) == 'zone_cat_breaks[%s]' % jv and isinstance(s.value.right, ast.Name)
-                n += 1
-                rep.add('X-key', f, entry, norm(s), s.lineno, okc,
-                        'the count of category j is breaks[j] minus the previous break')
-    g = m.funcs.get('_single_zone_crosstab_3d')
+                rep.add('X-key', f, entry, norm(c), c.lineno, okk and okc,
+                        'the count of a category is its own break minus the previous break, stored under that category '
+                        '(key ok: %s, count ok: %s)' % (okk, okc))
+    g = _view(prog, m.funcs.get('_single_zone_crosstab_3d'))
     if g is not None:
         for lp in [x for x in g.node.body if isinstance(x, ast.For)]:
             ok = isinstance(lp.iter, ast.Call) and norm(lp.iter.func) == 'enumerate' and \
@@ -922,7 +1000,7 @@ def check_crosstab_keys(prog, rep, m, entry):
                 n += 1
                 rep.add('X-key', g, entry, norm(s), s.lineno, norm(s.value) == 'zone_values[j]',
                         'layer j of the zone\'s values belongs to category j')
-    cn = m.funcs.get('_crosstab_numpy')
+    cn = _view(prog, m.funcs.get('_crosstab_numpy'))
     if cn is not None:
         ok = any(norm(a) == '_DEFAULT_STATS[agg]' for c in calls(cn.node) for a in c.args)
         n += 1
